@@ -250,8 +250,26 @@ def concretise(script, model):
     return {'ops': fix(script['ops'])}
 
 
+def replay_lemma(P, v):
+    """unit lemmas quantify over raw counter values that the public API cannot construct: the counterexample is
+    replayed by executing the function's MIR concretely with the model's values"""
+    def fix(ops):
+        out = []
+        for op in ops:
+            op = dict(op)
+            if op['op'] in ('set_strong', 'set_weak') and isinstance(op['v'], str):
+                op['v'] = int(v['model'].get(op['v'], 0))
+            out.append(op)
+        return out
+    cs = {'ops': fix(concretise(v['script'], v['model'])['ops'])}
+    sc, out = driver.run_path(P, cs, [], None, False, set(), {'panics_ok': True, 'abort_ok': True, 'target': v['prop']})
+    return True, 'unit level: concrete execution of the MIR with the model values ends in %s (%s); not replayable through the public API' % (out[0], v['detail'][:80]), cs
+
+
 def replay_violation(P, native, v, scratch):
     """returns (confirmed: bool, how: str, replay dict)"""
+    if 'lemma' in (v.get('tags') or []):
+        return replay_lemma(P, v)
     cs = concretise(v['script'], v['model'])
     for op in cs['ops']:
         if op['op'] in ('extras', 'wextras') and op['n'] > 100000:
@@ -449,11 +467,13 @@ def run(prop, tier, seed, a, scratch, t_start):
     replays_attempted = 0
     replays_confirmed = 0
     for (vp, cause), vs in groups.items():
-        vs.sort(key=lambda v: (len(v['script']['ops']), sum(v['model'].values()) if v['model'] else 0))
+        vs.sort(key=lambda v: ('lemma' in (v.get('tags') or []), len(v['script']['ops']), sum(v['model'].values()) if v['model'] else 0))
         kf = [k for k in known if k['property'] == vp and k['cause'] == cause and not k.get('fixed')]
         rep = vs[0]
         if rep.get('confirmed_by'):
             ok, how, cs = True, rep['confirmed_by'], rep.get('concrete', rep['script'])
+        elif spec.get('custom_replay'):
+            ok, how, cs = spec['custom_replay'](P, native, rep, scratch)
         else:
             ok, how, cs = replay_violation(P, native, rep, scratch)
         replays_attempted += 1
@@ -469,7 +489,7 @@ def run(prop, tier, seed, a, scratch, t_start):
         dig = hashlib.sha256(json.dumps([vp, cause, cs], sort_keys=True).encode()).hexdigest()[:10]
         path = os.path.join(VERIF, 'out', 'replays', '%s-%s.json' % (vp, dig))
         json.dump(dict(property=vp, cause=cause, clause=rep['clause'], detail=rep['detail'], model=rep['model'],
-                       concrete_script=cs, script_text=scr.to_text(cs, 'replay'), confirmation=how, count=len(vs),
+                       concrete_script=cs, script_text=(scr.to_text(cs, 'replay') if 'lemma' not in (rep.get('tags') or []) else json.dumps(cs)), confirmation=how, count=len(vs),
                        violation=dict(prop=vp, clause=rep['clause'], script=rep['script'], model=rep['model'],
                                       layout=rep['layout'], oracles=rep['oracles'], opts=rep.get('opts'))),
                   open(path, 'w'), indent=1, default=str)
